@@ -58,6 +58,16 @@ class C19(Prop):
 
     def gen_case(self, rng, k, tier):
         case = gen_cp_case(rng, tier)
+        if rng.random() < 0.4:      # glitchy timers: a child may outlast its parent by 1-2 us; the analysis clamps the negative weight to 0
+            from .cp import cp_cfg
+            from .common import case_from_cfg
+            cfg = cp_cfg(rng, tier)
+            cfg.p_overhang = 0.3
+            cfg.n_ranks = 1
+            extra = {k: case[k] for k in ("rank", "incl", "zero", "ann", "inst", "iseed")}
+            case = case_from_cfg(rng, cfg)
+            case.update(extra)
+            case["rank"] = 0
         path = os.path.join(os.environ.get("VF_SCRATCH", ""), "c19_hists.json")
         hists = json.load(open(path)) if os.path.exists(path) else [[{"op": "save", "s": 1, "t": 0}, {"op": "restore", "s": 1, "t": 0},
                                                                        {"op": "recompute", "s": 1, "t": 0}]]
@@ -89,7 +99,7 @@ class C19(Prop):
                 try:
                     if st["op"] == "save":
                         nsave += 1
-                        zips[st["s"]] = live.save(os.path.join(d, f"save{nsave}"))
+                        zips[st["s"]] = live.save(os.path.join(d, f"slot{st['s']}"))         # the same directory name every time the slot is written
                         rec["obs"] = projection(live)
                     elif st["op"] == "restore":
                         restored[st["s"]] = restore_cpgraph(zips[st["s"]], ta.t, r)
@@ -102,7 +112,7 @@ class C19(Prop):
                         rec["obs"] = projection(restored[st["s"]])
                     elif st["op"] == "save_restored":
                         nsave += 1
-                        zips[st["t"]] = restored[st["s"]].save(os.path.join(d, f"save{nsave}"))
+                        zips[st["t"]] = restored[st["s"]].save(os.path.join(d, f"slot{st['t']}"))
                         rec["obs"] = projection(restored[st["s"]])
                     elif st["op"] == "reweight":
                         for u, v in list(live.edges):
